@@ -1993,7 +1993,9 @@ impl Parser {
                     let ty = Self::r#type(child)?;
                     type_vec.push(ty);
                 }
-                other_rule => unreachable!("{other_rule:?}"),
+                other_rule => bail!(
+                    "a list type with fixed leading types and an open-ended tail is not supported ({other_rule:?}): use `[T...]` or list every element type"
+                ),
             }
         }
 
